@@ -276,18 +276,17 @@ Definition ev_ok (e : ev) : Prop :=
   match ev_op e with
   | OpPlain => exists v, ev_vals e = [v]
   | OpBool => ev_vals e = []
-  | OpStar => True
-  | OpPlus => ev_vals e <> []
+  | OpStar | OpPlus => True
   end.
 
 (* The traces of assignment events a body can produce for one object (grammar structure only:
-   any alternative, any number of iterations, unordered-group elements in any order). *)
+   any alternative, any number of iterations, unordered-group elements in any order; an assignment may stay silent). *)
 Fixpoint emits (b : body) (t : list ev) {struct b} : Prop :=
   match b with
   | BTok => t = []
   | BAsg a op =>
       (exists e, t = [e] /\ ev_attr e = a /\ ev_op e = op /\ ev_ok e)
-      \/ (t = [] /\ (op = OpBool \/ op = OpStar))
+      \/ t = []      (* no node: the right-hand side matched nothing / the empty string (Arpeggio drops falsy results) *)
   | BSeq l =>
       (fix go (l : list body) (t : list ev) : Prop :=
          match l with
